@@ -70,6 +70,9 @@ def gen(rng, ctx):
                     cd["edges"].append([o_, f"{inst}.p"])
             cd["nodes"] = [[n, t, False] for n, t, o in cd["nodes"]]
         kind += "+" + which
+    if rng.random() < 0.08 and "no_" not in kind:
+        cd = G.add_cycles(rng, cd, rng.randint(1, 2))
+        kind += "+cyclic"
     names = [n for n, _, _ in cd["nodes"] if "." not in n]
     m = {}
     r = rng.random()
@@ -179,6 +182,11 @@ def check(case, ctx):
     if net.has_x():
         ctx.count("x_structural_only")
         return
+    if net.topo() is None:
+        # combinational loops: no function of the inputs; gate-primitive form is compared structurally above,
+        # assign form by its io, registry and pin nets only
+        ctx.count("cyclic_structural_only")
+        return
     order = net.free()
     if len(order) > 13:
         ctx.count("skipped:too_many_free")
@@ -202,5 +210,5 @@ def check(case, ctx):
 
 
 def gates(counters, table, tier):
-    need = ["class:dollar_underscore", "class:no_inputs", "class:no_outputs", "behavioral:True", "behavioral:False", "class:bb", "class:escaped", "class:lookalike", "with_constants", "unconnected_pins", "identical_graph_branch", "via_file"]
+    need = ["class:cyclic", "class:dollar_underscore", "class:no_inputs", "class:no_outputs", "behavioral:True", "behavioral:False", "class:bb", "class:escaped", "class:lookalike", "with_constants", "unconnected_pins", "identical_graph_branch", "via_file"]
     return [f"{k} seen {counters.get(k, 0)} times" for k in need if counters.get(k, 0) < 5]
